@@ -195,6 +195,39 @@ def _hook_eclose(interp, fi, recv, args, kwargs, res, ev):
     return res
 
 
+_CLOSURE_FNS = {}
+
+
+def _hook_eps_closure(interp, fi, recv, args, kwargs, res, ev):
+    """A private helper of an automaton class that is a visited-set worklist and - in this call - follows the epsilon
+    edges of its receiver only (`self._reachable_by(seeds, [Epsilon()])`, a cached or iterative variant of eclose)
+    returns a union of epsilon closures: it is a source of ECL(r) exactly like `r.eclose(x)` itself."""
+    if recv is None or len(recv.alias) != 1 or fi.cls is None or not fi.name.startswith("_") or fi.name.endswith("__"):
+        return res
+    if res is None or res.types is None or not (res.types <= {"set", "frozenset"}) or not res.types:
+        return res
+    owner = next(iter(recv.alias))
+    if FABASE not in fi.cls.mro and fi.cls.qname != FABASE:
+        return res
+    # which edges the loop follows: every read of the transition function inside the helper asks for Epsilon only
+    # (where the seeds came from - e.g. out of symbol successors - does not matter)
+    reads = [e for e in (ev.sub.events if ev is not None and ev.sub is not None else [])
+             if e.kind == "call" and e.callee and e.callee.endswith("TransitionFunction.__call__") and len(e.args) >= 2]
+    if not reads or not all(e.args[1].types is not None and e.args[1].types and e.args[1].types <= {FA_EPSILON} for e in reads):
+        return res
+    ok = _CLOSURE_FNS.get(fi.qname)
+    if ok is None:
+        from .rules.flow import is_worklist_closure
+        try:
+            ok = bool(is_worklist_closure(fi.node)[0])
+        except Exception:
+            ok = False
+        _CLOSURE_FNS[fi.qname] = ok
+    if not ok:
+        return res
+    return res.with_quals({("ECL", owner)})
+
+
 def _hook_delta(interp, fi, recv, args, kwargs, res, ev):
     """Reads of a transition function are tagged with the component they cover: symbol edges, epsilon edges."""
     tags = set()
@@ -280,6 +313,7 @@ def install(interp):
     from . import av as _av
     _av.IMPLIED_QUALS["DET"] = frozenset({DFA})
     interp.model_hooks = hooks
+    interp.generic_hooks = [_hook_eps_closure]
     interp.ctor_tags = {FA_EPSILON: EPS_TAG}
     overrides = {}
     for (fq, pname), tys in PARAM_TYPES.items():
